@@ -129,6 +129,7 @@ func own() bool {
 
 func genOps(prop string, r *Rng, n int, tier string, emit func(string)) {
 	thorough := tier == "thorough"
+	quickTier = !thorough
 	switch prop {
 	case "C01":
 		for i := 0; i < n; i++ {
